@@ -441,6 +441,66 @@ fn judge_bracket(out: &mut Out, r: &Round) {
     }
 }
 
+/// The server's wall clock is stepped while it runs (LD_PRELOAD shim adding an offset to
+/// CLOCK_REALTIME): every response must state the stepped clock, not a clock derived from the
+/// start-up reading.
+fn clock_steps(ctx: &Ctx, out: &mut Out, rng: &mut Rng) {
+    use crate::procs::*;
+    let shim = ctx.bins.join("clockshim.so");
+    if !shim.exists() {
+        out.note("clock-step scenario skipped: clockshim.so not built (no C compiler?)");
+        return;
+    }
+    let seed = rng.bytes(32);
+    let pk = RefKey::from_seed(&seed).public();
+    std::fs::create_dir_all(&ctx.scratch).ok();
+    let off_file = ctx.scratch.join(format!("clock-offset-{}", ctx.shard));
+    let _ = std::fs::write(&off_file, "0");
+    let mut cfg = SrvCfg::new(free_port(false), &seed);
+    cfg.num_workers = Some(2);
+    cfg.tz = Some("UTC".into());
+    cfg.extra_env = vec![("LD_PRELOAD".into(), shim.display().to_string()), ("RTVERIF_CLOCK_OFFSET_FILE".into(), off_file.display().to_string())];
+    let Ok(mut sp) = spawn_server(&ctx.bins, &cfg, &ctx.scratch, "c11clock", None) else {
+        out.inconclusive("spawn failed");
+        return;
+    };
+    if sp.wait_ready(&pk, Duration::from_secs(10)).is_err() {
+        out.inconclusive("server under the clock shim not ready");
+        return;
+    }
+    let desc = json!({"kind":"clock-step"});
+    for off in [0i64, 3_600, -3_600, 86_400 * 400, -86_400 * 30, 0] {
+        let _ = std::fs::write(&off_file, off.to_string());
+        std::thread::sleep(Duration::from_millis(5));
+        for i in 0..12 {
+            let p = if i % 2 == 0 { Proto::Classic } else { Proto::Ietf };
+            let t0 = SystemTime::now();
+            let r = probe(sp.cfg.port, &pk, p, rng, Duration::from_millis(1000));
+            let t1 = SystemTime::now();
+            let Ok(v) = r else {
+                out.inconclusive("clock-step probe unanswered");
+                continue;
+            };
+            let shift = |t: SystemTime| if off >= 0 { t + Duration::from_secs(off as u64) } else { t - Duration::from_secs((-off) as u64) };
+            let (lo, hi) = (floor_unit(shift(t0), p), floor_unit(shift(t1), p));
+            out.obs("clock_step_replies_bracketed", 1);
+            if v.midp < lo || v.midp > hi {
+                out.violation(
+                    &format!("C11 running-server midpoint-ignores-clock-step proto={}", p.name()),
+                    &format!("server wall clock stepped by {} s: MIDP {} is not within [{}, {}] of the stepped clock", off, v.midp, lo, hi),
+                    desc.clone(),
+                );
+            }
+        }
+        out.obs("clock_steps_applied", 1);
+    }
+    out.case(fnv64(&seed) ^ 0xc10c, true);
+    sp.signal(libc::SIGTERM);
+    if sp.wait_exit(Duration::from_secs(5)).is_none() {
+        sp.kill();
+    }
+}
+
 pub fn run_c11(ctx: &Ctx, out: &mut Out) {
     let mut rng = ctx.rng("C11");
     crate::inproc::install_logger(log::LevelFilter::Warn, false);
@@ -485,6 +545,9 @@ pub fn run_c11(ctx: &Ctx, out: &mut Out) {
             break;
         }
     }
+    if ctx.shard < 2 || ctx.thorough {
+        clock_steps(ctx, out, &mut rng);
+    }
     for k in 0..ctx.share(480, 32_000) {
         brackets(out, &mut rng, k);
         if !ctx.time_left() {
@@ -492,11 +555,15 @@ pub fn run_c11(ctx: &Ctx, out: &mut Out) {
         }
     }
     out.sample(json!({"clock": "7258118400.999999999", "classic_midp": 7258118400999999u64, "ietf_midp": 7258118400u64}));
+    out.obs(&format!("shards_in_tz_{}", std::env::var("TZ").unwrap_or_default()), 1);
     out.floor("clock_values_checked", 50_000);
     out.floor("grid_points", 72);
     out.floor("replies_bracketed_classic", 500);
     out.floor("replies_bracketed_ietf", 500);
     out.floor("identical_request_repeats_bracketed", 200);
+    if ctx.bins.join("clockshim.so").exists() {
+        out.floor("clock_step_replies_bracketed", 50);
+    }
 }
 
 #[allow(dead_code)]
